@@ -950,7 +950,7 @@ func ruleR18_5(c *Check) {
 	for _, s := range ah.Sites(selStore(kh)) {
 		r.Check(len(w.Guards(ah, s)) == 0, ah, "every entry's key hash is recorded", s, "the key hash is recorded only under a condition")
 	}
-	r.Exists(len(ah.Sites(selStore(kh))) == 1, ah, "key hash recorded", nil, "addHelper does not append to keyHashes")
+	r.Exists(len(ah.Sites(selStore(kh))) >= 1, ah, "key hash recorded", nil, "addHelper does not append to keyHashes")
 	pt := w.Func("y.ParseTs")
 	nmv := 0
 	for _, s := range ah.Sites(selStore(mv)) {
@@ -960,7 +960,7 @@ func ruleR18_5(c *Check) {
 		okRhs := as != nil && len(as.Rhs) == 1 && w.isCallTo(as.Rhs[0], pt)
 		r.Check(g != nil && (op == token.GTR || op == token.GEQ) && okRhs, ah, "maxVersion raised to a larger entry version", s, "maxVersion is not `if ParseTs(key) > maxVersion { maxVersion = that }`")
 	}
-	r.Exists(nmv == 1, ah, "maxVersion maintained", nil, "addHelper does not maintain maxVersion")
+	r.Exists(nmv >= 1, ah, "maxVersion maintained", nil, "addHelper does not maintain maxVersion")
 	bi := w.F("table.Builder.buildIndex")
 	okMV, okKC := false, false
 	bi.walk(func(n ast.Node) bool {
